@@ -20,7 +20,7 @@ def known_ids(prop):
     return {k["id"]: k for k in load_known_findings() if k.get("kind") == "known" and prop in k.get("properties", [k.get("property")])}
 
 
-def run_prog_check(prop, props_files, tier, oracles, features=gen_prog.ALL, n_quick=4000, n_thorough=60000, rule="", extra=None, max_bodies=4, max_ops=6, scenarios=(0, 0)):
+def run_prog_check(prop, props_files, tier, oracles, features=gen_prog.ALL, n_quick=4000, n_thorough=60000, rule="", extra=None, max_bodies=4, max_ops=6, scenarios=(0, 0), lifecycle=(0, 0)):
     """oracles: list of names among c08, c03, c13, objects:<PROP>.  Violations of the implementation's own traces
     are reported with the program as replay; a model/implementation disagreement without an oracle failure
     is reported as a broken correspondence (no-failing-input-found)."""
@@ -56,6 +56,10 @@ def run_prog_check(prop, props_files, tier, oracles, features=gen_prog.ALL, n_qu
         for _ in range(2):
             f[2] = gen_prog.gen_script(rng)
             cases.append(" ".join(f))
+    nlc = lifecycle[0] if tier == "quick" else lifecycle[1]
+    for i in range(nlc):
+        cases.append(gen_prog.gen_lifecycle(rng))
+    ctx.dist("generated.lifecycle", nlc)
     ctx.dist("generated.random", n)
     ctx.dist("generated.scenario", nscn)
     ctx.dist("corpus", ncorpus)
@@ -96,6 +100,9 @@ def run_prog_check(prop, props_files, tier, oracles, features=gen_prog.ALL, n_qu
                     found.append((r, None))
             elif o == "c15":
                 for p_, msg, tag in proglayer.oracle_c15(evs, term, cs):
+                    found.append((msg, tag))
+            elif o == "c07":
+                for p_, msg, tag in proglayer.oracle_c07(evs, term, cs):
                     found.append((msg, tag))
             elif o.startswith("sync2"):
                 want = o.split(":")[1:]
